@@ -248,6 +248,8 @@ PROPS["C06"]["tasks"] = PROPS["C06"]["tasks"] + [t for t in ("Market._add_order"
 PROPS["C05"]["tasks"] = PROPS["C05"]["tasks"] + ["IndexMarket.__init__"]
 # round 8: "a function of the configuration and the seed and of nothing else" - also not of whether a logger is attached: the run-loop blocks are proved with and without one (C07)
 PROPS["C07"]["tasks"] = PROPS["C07"]["tasks"] + [t for t in SKELETON + RUNNER_ELEMS if t not in PROPS["C07"]["tasks"]]
+# round 8: the best quotes are read from the top of the heap, so "quotes describe the current book" rests on the heap invariant kept by every book operation (C08)
+PROPS["C08"]["tasks"] = PROPS["C08"]["tasks"] + [t for t in ("OrderBook.add", "OrderBook.cancel", "OrderBook._remove", "OrderBook.change_order_volume", "OrderBook._check_expired_orders") if t not in PROPS["C08"]["tasks"]]
 from .census import CALLERS as _CALLERS
 for _g, (_ps, _r, _t) in _CALLERS.items():
     for _p in _ps:
